@@ -48,7 +48,7 @@ def gen_consts(rng, names, n):
         name = names.fresh("K_")
         kind = rng.choice(["i32", "u32", "f32", "bool", "i32_inferred", "f32_inferred", "u32_expr", "i32_expr",
                            "ref", "f64", "i64", "u64", "vec", "array", "f32_extreme", "i32_extreme", "neg_zero",
-                           "f32_expr", "bool_expr"])
+                           "f32_expr", "bool_expr", "zero_scalar", "zero_vec", "neg_zero_expr", "splat"])
         if kind == "i32":
             v = rng.choice([0, 1, -1, 7, -12345, 2147483647, rng.randint(-10 ** 6, 10 ** 6)])
             lines.append("const %s: i32 = %d;" % (name, v))
@@ -124,6 +124,18 @@ def gen_consts(rng, names, n):
             v = rng.choice([5, 18446744073709551615, 1 << 50])
             lines.append("const %s: u64 = %dlu;" % (name, v))
             truth.append((name, "PU64", "(LU64 %d%%N)" % v))
+        elif kind == "zero_scalar":
+            ty, prim_, lit = rng.choice([("f32", "PF32", "(LF32 0%N)"), ("u32", "PU32", "(LU32 0%N)"), ("i32", "PI32", "(LI32 0%Z)"),
+                                         ("bool", "PBool", "(LBool false)")])
+            lines.append(rng.choice(["const %s = %s();", "const %s: %s = %s();"]).replace("%s: %s", "%s: " + ty) % ((name, ty) if True else ()))
+            truth.append((name, prim_, lit))
+        elif kind == "zero_vec":
+            lines.append("const %s = %s();" % (name, rng.choice(["vec3<f32>", "mat2x2<f32>", "vec4<u32>", "array<f32, 2>"])))
+        elif kind == "splat":
+            lines.append("const %s = vec2<i32>(7);" % name)
+        elif kind == "neg_zero_expr":
+            lines.append("const %s: f32 = -1.0 * 0.0;" % name)
+            truth.append((name, "PF32", "(LF32 %d%%N)" % f32_bits(-0.0)))
         elif kind == "vec":
             lines.append("const %s = vec3<f32>(1.0, 2.0, 3.0);" % name)
         elif kind == "array":
